@@ -265,9 +265,9 @@ PROPS["C02"] = {
     "gens": ["Pbf"],
     "race": True,
     "model_is_spec": ["par ", "pard "],
-    "required_theorems": ["inv_init", "inv_step", "order_under_every_schedule", "complete_when_quiescent", "not_stuck", "pipeline_shape"],
+    "required_theorems": ["order_under_every_bounded_schedule", "not_stuck_bounded", "inv_init", "inv_step", "order_under_every_schedule", "complete_when_quiescent", "not_stuck", "pipeline_shape"],
     "technique": "Lean 4 transition system of the reader / n decoders / serializer pipeline with unbounded queues; invariant proved by induction over arbitrary schedules: the consumer receives blocks 0..m-1 in file order for every n, every number of blocks and every interleaving, all blocks when quiescent, never stuck before; the pipeline's round-robin and forwarding statements pinned in the regenerated body of decoder.Start; the real scanner with 1..32 decoders under perturbed timing compared with the format model and the single-decoder scan, under the Go race detector",
-    "level_text": "Machine-checked proof over the model: for every number of decoders n >= 1, every number of blocks and every schedule (any sequence of reader, decoder-take, decoder-finish and serializer steps; unbounded queues, of which bounded and unbuffered Go channels allow a subset), the sequence handed to the consumer is 0,1,...,m-1 - file order, nothing lost, duplicated or swapped; when no step is enabled it is all blocks; while a block is missing some step is enabled. The model's shape (dispatch k -> decoder k mod n, collection in the same order, one private dataDecoder per goroutine, one block at a time, every result forwarded, a fresh object slice per block) is pinned against the statements regenerated from the source. Partial: goroutine scheduling, channel semantics and memory visibility of the Go runtime are not modelled; they are exercised: 1..32 decoders (more than blocks, more than the channel budget), stalling reader, slow/fast blocks via filter callbacks, stalling consumer retaining all objects, all under the race detector, results compared with the format model and the single-decoder scan.",
+    "level_text": "Machine-checked proof over the model: for every number of decoders n >= 1, every number of blocks and every schedule (any sequence of reader, decoder-take, decoder-finish and serializer steps; unbounded queues, of which bounded and unbuffered Go channels allow a subset), the sequence handed to the consumer is 0,1,...,m-1 - file order, nothing lost, duplicated or swapped; when no step is enabled it is all blocks; while a block is missing some step is enabled. The same with BOUNDED queues (any capacity >= 1 per queue; an unbuffered channel counts as one slot, the item in the sender's hand): a bounded schedule is one of the schedules above, so the order theorem applies (order_under_every_bounded_schedule), and progress - which is not inherited, fewer enabled steps could mean new stuck states - is proved separately (not_stuck_bounded: the serializer can forward the block it waits for, or the decoder holding it can finish or take it because its output queue is empty, or the reader can read because its next queue is empty). The model's shape (dispatch k -> decoder k mod n, collection in the same order, one private dataDecoder per goroutine, one block at a time, every result forwarded, a fresh object slice per block) is pinned against the statements regenerated from the source. Partial: goroutine scheduling, channel semantics and memory visibility of the Go runtime are not modelled; they are exercised: 1..32 decoders (more than blocks, more than the channel budget), stalling reader, slow/fast blocks via filter callbacks, stalling consumer retaining all objects, all under the race detector, results compared with the format model and the single-decoder scan.",
     "level_note": "Trusted: Lean kernel; the fact extractor; that the Go statements pinned mean what the model's four actions say (channel send/receive, range over a channel). Data-race freedom is checked dynamically (race detector on the explored schedules), not proved.",
     "design_ref": "DESIGN.md §5 C02",
     "trusted_base": ["Go runtime: goroutines, channels, memory model", "Go race detector", "harness protobuf writer harness/pbfgen.go"],
